@@ -183,7 +183,7 @@ def entryOf (e : Exports) (k : Str) : Option Entry :=
   (lookup e k).map fun o => (k, dictOf o.ifaces)
 
 /-- The paths `getManagedObjects(objectPath)` visits (repaired: prefix test on `objectPath + '/'`). -/
-def managedKeys (p : Str) (e : Exports) : List Str :=
+def managedKeys {α : Type} (p : Str) (e : Table α) : List Str :=
   let pre := dirPrefix p
   (sortStr (keys e)).filter fun k => !(!startsWith k pre || k == p)
 
